@@ -468,7 +468,10 @@ impl Number {
     }
 
     pub fn complexity_score(&self) -> i64 {
-        self.unit.iter().map(|(_, p)| 1 + p.abs()).sum()
+        // Powers can get close to i64::MAX, ((m kg s)^(2^31-1))^(2^31-1).
+        self.unit.iter().fold(0i64, |score, (_, p)| {
+            score.saturating_add(1).saturating_add(p.saturating_abs())
+        })
     }
 
     pub fn dimless(&self) -> bool {
